@@ -62,6 +62,8 @@ func TestMain(m *testing.M) {
 		evid.Spec{Name: "TestPropWorkers", Kind: "rapid", Quick: 240, Thorough: 4800, QuickShards: 8, ThoroughShards: 16},
 		evid.Spec{Name: "TestPropWorkersSmall", Kind: "rapid", Quick: 1200, Thorough: 40000, QuickShards: 2, ThoroughShards: 8},
 		evid.Spec{Name: "TestPropCLI", Kind: "rapid", Quick: 64, Thorough: 1600, QuickShards: 4, ThoroughShards: 16},
+		evid.Spec{Name: "TestPropLarge", Kind: "rapid", Quick: 8, Thorough: 96, QuickShards: 8, ThoroughShards: 16},
+		evid.Spec{Name: "TestPropCLILarge", Kind: "rapid", Quick: 3, Thorough: 32, QuickShards: 3, ThoroughShards: 16},
 	)
 	evid.Commands("obiclean")
 	evid.Note("rule", "exact: 1-4 samples of up to 60 sequences (seeds, stars, chains, two-level hubs of one-difference variants in and out of homopolymers, 2-3 difference variants, unrelated sequences, ties; counts through merged_sample maps or sample/count attributes) built through hook H4 at distance 1, ratio 1 with 1-8 workers and compared with the model edge(s->f) <=> count(f)>count(s) and Levenshtein(s,f)=1 (full-matrix DP), status from out-/in-degree, mutation applied to the father gives the son; non-trivial = the model graph has at least one edge. workers: one to three abundant sequences with 100-1000 sons at distance 1 (100-230 sons carrying 1-3 differences at distance 2..3), every distance 1..3 x ratio {1,0.5,0.1}, H4 with 1 worker vs three worker counts from 2..32, repeated 3 (distance>1: 2) times: nodes (count, SonCount, weight, status) and edge sets equal, SonCount = in-degree, and at the defaults equal to the model; non-trivial = some node has at least 2 x (largest worker count) sons. workers_small: the same comparison on the small data sets. cli: the obiclean command on generated files, --max-cpu 1..32 x --batch-size x arrival-order jitter, repeated runs: per record obiclean_status, obiclean_weight, obiclean_head, the four counters, obiclean_mutation, merged_sample and count equal in all runs, -H keeps exactly the head records, and at the defaults status/mutation equal to the model; non-trivial = at least one record is internal in some sample. Distinct = hash of the data set and options.")
@@ -92,9 +94,17 @@ func levOne(a, b string) bool {
 	return l
 }
 
+// graphModel builds the model graph of one sample.
+type graphModel func(nodes []refNode) *refSample
+
+// quadratic is the model as the statement words it: every pair is tested with one.
+func quadratic(one func(a, b string) bool) graphModel {
+	return func(nodes []refNode) *refSample { return refGraph(nodes, one) }
+}
+
 // compareWithModel judges one observed sample (distance 1, ratio 1) against the model.
-func compareWithModel(name string, nodes []refNode, o *obsSample, one func(a, b string) bool) error {
-	g := refGraph(nodes, one)
+func compareWithModel(name string, nodes []refNode, o *obsSample, model graphModel) error {
+	g := model(nodes)
 	seqOf := map[string]string{}
 	if len(o.Nodes) != len(nodes) {
 		return fmt.Errorf("sample %q has %d nodes, the data set puts %d records in it", name, len(o.Nodes), len(nodes))
@@ -227,7 +237,7 @@ func abs(x int) int {
 	return x
 }
 
-func compareAllWithModel(recs []rec, obs map[string]*obsSample, one func(a, b string) bool) error {
+func compareAllWithModel(recs []rec, obs map[string]*obsSample, model graphModel) error {
 	samples := refSamples(recs)
 	for _, name := range sortedKeys(samples) {
 		o := obs[name]
@@ -237,7 +247,7 @@ func compareAllWithModel(recs []rec, obs map[string]*obsSample, one func(a, b st
 		if err := selfConsistent(name, o); err != nil {
 			return err
 		}
-		if err := compareWithModel(name, samples[name], o, one); err != nil {
+		if err := compareWithModel(name, samples[name], o, model); err != nil {
 			return err
 		}
 	}
@@ -254,7 +264,7 @@ func checkExact(c exactCase) error {
 	if err != nil {
 		return err
 	}
-	if err := compareAllWithModel(c.Recs, obs, levOne); err != nil {
+	if err := compareAllWithModel(c.Recs, obs, quadratic(levOne)); err != nil {
 		return fmt.Errorf("VerifBuildGraph(distance 1, ratio 1, %d workers): %v", c.Workers, err)
 	}
 	return nil
@@ -265,6 +275,9 @@ func modelClasses(recs []rec) (edges int, classes []string) {
 	cl := map[string]bool{}
 	for _, nodes := range refSamples(recs) {
 		g := refGraph(nodes, oneEdit)
+		if d := sameGraph(g, refGraphFast(nodes)); d != "" {
+			panic("harness bug: the indexed model (refGraphFast) disagrees with the pairwise model (refGraph): " + d)
+		}
 		seqOf := map[string]string{}
 		for _, n := range nodes {
 			seqOf[n.Id] = n.Seq
@@ -359,7 +372,9 @@ type workersCase struct {
 	Reps    int
 }
 
-func checkWorkers(c workersCase) error {
+func checkWorkers(c workersCase) error { return checkWorkersWith(c, quadratic(oneEdit)) }
+
+func checkWorkersWith(c workersCase, model graphModel) error {
 	base, err := build(c.Recs, c.Dist, c.Ratio, 1)
 	if err != nil {
 		return err
@@ -371,7 +386,7 @@ func checkWorkers(c workersCase) error {
 		}
 	}
 	if c.Dist == 1 && c.Ratio == 1.0 {
-		if err := compareAllWithModel(c.Recs, base, oneEdit); err != nil {
+		if err := compareAllWithModel(c.Recs, base, model); err != nil {
 			return fmt.Errorf("%s, 1 worker): %v", what, err)
 		}
 	}
